@@ -196,6 +196,21 @@ fn rand_key(rng: &mut Rng) -> String {
     }
 }
 
+/// the `i`-th delta of a batch: its own payload and stamp, so that two deltas for the same key are
+/// different UPDATES (identity = position in the batch, readable from the stamp)
+fn mk_delta_i(key: &str, src: u64, i: usize) -> ReplicationDelta {
+    let rid = ReplicaId::new(src);
+    ReplicationDelta::new(
+        key.to_string(),
+        ReplicatedValue::with_value(SDS::from_str(&format!("v{}", i)), LamportClock { time: i as u64 + 1, replica_id: rid }),
+        rid,
+    )
+}
+
+fn delta_index(d: &ReplicationDelta) -> usize {
+    d.value.timestamp.time as usize - 1
+}
+
 fn mk_delta(key: &str, src: u64) -> ReplicationDelta {
     let rid = ReplicaId::new(src);
     ReplicationDelta::new(
@@ -368,12 +383,16 @@ fn router_ops(ctx: &mut Ctx, rng: &mut Rng, ring: &HashRing, members: &[u64], sp
         let d = dkeys[0].clone();
         dkeys.push(d); // the same key twice in one batch
     }
-    let deltas: Vec<ReplicationDelta> = dkeys.iter().map(|k| mk_delta(k, spec.me)).collect();
+    // every delta of the batch is its own update (payload v<i>, stamp i + 1): the same key may occur
+    // several times (a key written twice within one gossip interval)
+    let deltas: Vec<ReplicationDelta> = dkeys.iter().enumerate().map(|(i, k)| mk_delta_i(k, spec.me, i)).collect();
     let kps: Vec<u64> = dkeys.iter().map(|k| HashRing::verif_key_position(k)).collect();
     let table = rt.route_deltas(deltas.clone());
     let mut tbl: BTreeMap<u64, Vec<u64>> = BTreeMap::new();
+    let mut tbl_idx: BTreeMap<u64, Vec<usize>> = BTreeMap::new();
     for (t, ds) in &table {
         tbl.insert(t.0, ds.iter().map(|d| HashRing::verif_key_position(&d.key)).collect());
+        tbl_idx.insert(t.0, ds.iter().map(delta_index).collect());
     }
     let mut l = format!("ROUTE {}", kps.len());
     for k in &kps {
@@ -384,28 +403,42 @@ fn router_ops(ctx: &mut Ctx, rng: &mut Rng, ring: &HashRing, members: &[u64], sp
         a.push_str(&format!(" {}:{}", t, csv(ds)));
     }
     ctx.out.op(l, a);
+    ctx.out.count(if dkeys.iter().collect::<BTreeSet<_>>().len() < dkeys.len() { "route:batch:key-repeated" } else { "route:batch:distinct-keys" });
 
-    // oracle: every owner other than the sender is handed the delta, nobody else is
+    // oracle, per DELTA (not per key): every delta of the batch is handed to every responsible
+    // replica other than the sender — once, in batch order — and to nobody else
     // (the property speaks about clusters in which the router can reach the other members:
     //  explicit address books that cover the members, and every from_config router of a
     //  sequentially numbered cluster)
     let must_cover = (spec.kind == "new" && covering) || (seq_cluster && members.iter().all(|m| *m >= 1 && *m as usize <= spec.npeers + 1));
-    for (i, k) in dkeys.iter().enumerate() {
-        let owners = ids(&ring.get_replicas(k));
-        let everyone: BTreeSet<u64> = members.iter().chain(peers.keys()).cloned().collect();
-        for t in everyone.iter() {
-            let handed = tbl.get(t).map(|ds| ds.contains(&kps[i])).unwrap_or(false);
-            let owner = owners.contains(t) && *t != spec.me;
+    let owners_of: Vec<Vec<u64>> = dkeys.iter().map(|k| ids(&ring.get_replicas(k))).collect();
+    let everyone: BTreeSet<u64> = members.iter().chain(peers.keys()).cloned().collect();
+    let batch_json: Vec<serde_json::Value> = dkeys.iter().enumerate().map(|(i, k)| json!({"delta": i, "key": k, "payload": format!("v{}", i), "owners": owners_of[i]})).collect();
+    for t in everyone.iter() {
+        let got: Vec<usize> = tbl_idx.get(t).cloned().unwrap_or_default();
+        for (i, k) in dkeys.iter().enumerate() {
+            let handed = got.contains(&i);
+            let owner = owners_of[i].contains(t) && *t != spec.me;
             if selective && handed && !owner {
                 ctx.out.violation(&format!("C19:route:{}:non-owner-targeted", spec.kind),
                     "route_deltas hands a delta to a node that is not a responsible replica (or to the sender)",
-                    replay("route", json!({"key": k, "owners": owners, "target": t})));
+                    replay("route", json!({"batch": batch_json, "delta": i, "key": k, "owners": owners_of[i], "target": t})));
             }
             if owner && !handed && must_cover {
+                let earlier = dkeys[..i].iter().filter(|x| *x == k).count();
+                let later = dkeys[i + 1..].iter().filter(|x| *x == k).count();
                 ctx.out.violation(&format!("C19:route:{}:owner-starved", spec.kind),
-                    &format!("route_deltas (replica {}) does not hand the delta for key {:?} to owner {} (owners {:?}, registered peer ids {:?})", spec.me, k, t, owners, peers.keys().collect::<Vec<_>>()),
-                    replay("route", json!({"key": k, "owners": owners, "starved": t})));
+                    &format!("route_deltas (replica {}) does not hand delta #{} of the batch (key {:?}, payload v{}{}) to owner {} (owners {:?}, handed to {}: deltas {:?}, registered peer ids {:?})",
+                        spec.me, i, k, i, if earlier + later > 0 { format!(", occurrence {} of {} of this key in the batch", earlier + 1, earlier + later + 1) } else { String::new() },
+                        t, owners_of[i], t, got, peers.keys().collect::<Vec<_>>()),
+                    replay("route", json!({"batch": batch_json, "delta": i, "key": k, "owners": owners_of[i], "starved": t, "handed_to_target": got})));
             }
+        }
+        // once each, in batch order
+        if selective && (got.windows(2).any(|w| w[0] >= w[1])) {
+            ctx.out.violation(&format!("C19:route:{}:duplicate-or-reordered", spec.kind),
+                &format!("route_deltas hands target {} the deltas {:?}: a delta twice, or not in batch order (a later write of a key before an earlier one)", t, got),
+                replay("route", json!({"batch": batch_json, "target": t, "handed_to_target": got})));
         }
     }
 
@@ -945,6 +978,21 @@ fn gossip_state_session(ctx: &mut Ctx, rng: &mut Rng, ring: &HashRing, members: 
     let me = *rng.pick(members);
     let peer_ids: Vec<u64> = members.iter().cloned().filter(|m| *m != me).collect();
     let spec = RouterSpec { kind: "new", me, selective: !rng.chance(1, 4), peer_ids, npeers: 0, partitioned: true, enabled: true };
+    // set_router installs a DIFFERENT router (mode flipped, one member without address) — and the
+    // next set_router the first one again
+    let spec2 = RouterSpec { kind: "new", me, selective: !spec.selective, peer_ids: spec.peer_ids.iter().skip(1).cloned().collect(), npeers: 0, partitioned: true, enabled: true };
+    let rnew_line = |sp: &RouterSpec| -> (String, String) {
+        let (r, _) = build_router(sp, ring);
+        let mut l = format!("RNEW {} {} {}", sp.me, sp.selective as u8, sp.peer_ids.len());
+        for p in &sp.peer_ids {
+            l.push_str(&format!(" {}", p));
+        }
+        let mut a = format!("peers self={} sel={}", r.my_replica().0, r.is_selective() as u8);
+        for (id, addr) in &peers_of(&r) {
+            a.push_str(&format!(" {}:{}", id, addr));
+        }
+        (l, a)
+    };
     // the model's current router becomes this one
     let (rt0, cfg) = build_router(&spec, ring);
     let mut l = format!("RNEW {} {} {}", spec.me, spec.selective as u8, spec.peer_ids.len());
@@ -1002,13 +1050,21 @@ fn gossip_state_session(ctx: &mut Ctx, rng: &mut Rng, ring: &HashRing, members: 
     {
         let mut gs = if with_router { GossipState::with_router(cfg.clone(), build_router(&spec, ring).0) } else { GossipState::new(cfg.clone()) };
         ctx.out.op(format!("GNEW {} {}", me, with_router as u8), "g ok".into());
+        let mut nset = 0;
         for st in &script {
             match st {
                 Step::Hb(n) => { for _ in 0..*n { gs.queue_heartbeat(); } ctx.out.op(format!("GHB {}", n), "g ok".into()); }
                 Step::Adv(n) => { for _ in 0..*n { gs.advance_epoch(); } ctx.out.op(format!("GADV {}", n), "g ok".into()); }
                 Step::Q(ks) => { gs.queue_deltas(ks.iter().map(|k| mk_delta(k, me)).collect()); ctx.out.op(format!("GQ {}", kp(ks)), "g ok".into()); }
                 Step::Qb(ks) => { gs.queue_deltas_broadcast(ks.iter().map(|k| mk_delta(k, me)).collect()); ctx.out.op(format!("GQB {}", kp(ks)), "g ok".into()); }
-                Step::Set => { gs.set_router(build_router(&spec, ring).0); ctx.out.op("GSET".into(), "g ok".into()); }
+                Step::Set => {
+                    nset += 1;
+                    let sp = if nset % 2 == 1 { &spec2 } else { &spec };
+                    let (l, a) = rnew_line(sp);
+                    ctx.out.op(l, a);
+                    gs.set_router(build_router(sp, ring).0);
+                    ctx.out.op("GSET".into(), "g ok".into());
+                }
                 Step::Sel => { let a = format!("sel {}", gs.is_selective() as u8); answers_direct.push(a.clone()); ctx.out.op("GSEL".into(), a); }
                 Step::Drain => {
                     let q = gs.drain_outbound();
@@ -1031,13 +1087,17 @@ fn gossip_state_session(ctx: &mut Ctx, rng: &mut Rng, ring: &HashRing, members: 
         let answers_actor: Vec<String> = rt.block_on(async {
             let h = if with_router { GossipActor::spawn_with_router(cfg.clone(), build_router(&spec, ring).0) } else { GossipActor::spawn(cfg.clone()) };
             let mut res = Vec::new();
+            let mut nset = 0;
             for st in &script {
                 match st {
                     Step::Hb(n) => { for _ in 0..*n { h.queue_heartbeat(); } }
                     Step::Adv(n) => { for _ in 0..*n { h.advance_epoch(); } }
                     Step::Q(ks) => h.queue_deltas(ks.iter().map(|k| mk_delta(k, me)).collect()),
                     Step::Qb(ks) => h.queue_deltas_broadcast(ks.iter().map(|k| mk_delta(k, me)).collect()),
-                    Step::Set => h.set_router(build_router(&spec, ring).0),
+                    Step::Set => {
+                        nset += 1;
+                        h.set_router(build_router(if nset % 2 == 1 { &spec2 } else { &spec }, ring).0)
+                    }
                     Step::Sel => res.push(format!("sel {}", h.is_selective().await as u8)),
                     Step::Drain => { let q = h.drain_outbound().await; res.push(show(&q, me).0); }
                 }
@@ -1069,7 +1129,7 @@ fn gossip_loop_ops(ctx: &mut Ctx, ring: &HashRing, members: &[u64], spec: &Route
     let n = spec.npeers;
     let rt = tokio::runtime::Builder::new_current_thread().enable_all().build().unwrap();
     let received: Vec<Arc<Mutex<Vec<GossipMessage>>>> = (0..n).map(|_| Arc::new(Mutex::new(Vec::new()))).collect();
-    let batch: Vec<ReplicationDelta> = dkeys.iter().map(|k| mk_delta(k, me)).collect();
+    let batch: Vec<ReplicationDelta> = dkeys.iter().enumerate().map(|(i, k)| mk_delta_i(k, me, i)).collect();
     let ring_arc = Arc::new(RwLock::new(ring.clone()));
     let outcome: Result<(), String> = rt.block_on(async {
         use tokio::io::AsyncReadExt;
@@ -1162,7 +1222,8 @@ fn gossip_loop_ops(ctx: &mut Ctx, ring: &HashRing, members: &[u64], spec: &Route
         let owners = ids(&ring.get_replicas(k));
         for i in 0..n {
             let t = member_of(i);
-            let got = rows[i].contains(&kp);
+            // per delta: as many copies as the batch holds updates of this key
+            let got = rows[i].iter().filter(|x| **x == kp).count() >= dkeys.iter().filter(|x| *x == k).count();
             let owner = owners.contains(&t);
             let replay = json!({"loop": if kind == "lock" { "GossipManager::start_gossip_loop" } else { "GossipManager::start_gossip_loop_with_actor" },
                 "replica_id": me, "peers": (0..n).map(|j| format!("address of member {}", member_of(j))).collect::<Vec<_>>(), "members": members,
@@ -1180,7 +1241,7 @@ fn gossip_loop_ops(ctx: &mut Ctx, ring: &HashRing, members: &[u64], spec: &Route
                     } else {
                         ctx.out.violation("C19:gossip-loop:owner-starved", &format!("the gossip loop does not deliver the delta for key {:?} to owner {}", k, t), replay);
                     }
-                } else if !owner && got {
+                } else if !owner && rows[i].contains(&kp) {
                     ctx.out.violation("C19:gossip-loop:non-owner-targeted", &format!("the gossip loop delivers the delta for key {:?} to member {}, which is not a responsible replica", k, t), replay);
                 }
             } else if !got {
